@@ -188,6 +188,74 @@ Definition finish (d : dist) (t : table) (hdr : list bool) (items : list (Z * Z 
       end
   end.
 
+(* ---------- enclosure mode (group hK): P so close to 0 or 1 that the exact table is out of reach ----------
+   For P = a/2^e the exact (1-P)^N has N*e bits and costs ~e^2 N^2/2 bit operations here (2.4 s at N = 101,
+   P = 1e-12; > 100 s at N = 1000).  With m = min (P, 1-P) and eps = N (N-1) m^2 the Bernoulli inequality
+   (1-m)^k >= 1 - k m and "the probabilities are >= 0 and sum to 1" enclose EVERY probability of the
+   distribution in an interval of width <= eps with end points of a few hundred bits (Proofs/C06Encl.v):
+     small side B(N, m):   pr 0 in [1 - N m, 1 - N m + eps],   pr 1 in [N m - eps, N m],   pr j in [0, eps] (j >= 2),
+                           sum_{i<=j} pr i in [1 - eps, 1] for 1 <= j < N;
+   P near 1 is the mirror image (k -> N - k, lower sums -> 1 - lower sums).  An observed value q is accepted
+   iff U - tol_abs <= q <= L + tol_abs, which implies |q - exact| <= tol_abs for every exact in [L, U].
+   The mode is used only when eps <= 1e-12 (1% of the tolerance) AND N * e > 9000 (no case of the quick tier
+   before round 3 is that large; its largest is 170 * 40), so what the exact-table path accepts or rejects is untouched. *)
+Definition encl_eps (n : Z) (m : Q) : Q := (inject_Z (n * (n - 1)) * m * m)%Q.
+Definition encl_applies (n : Z) (m : Q) (d : positive) : bool :=
+  (1 <=? n) && (9000 <? n * Z.log2 (Zpos d)) && Qle_bool (encl_eps n m) (1 # 1000000000000).
+(* Some false: P near 0 (m = P);  Some true: P near 1 (m = 1 - P);  None: the exact table *)
+Definition encl_side (n : Z) (p : Q) : option bool :=
+  if encl_applies n p (Qden p) then Some false
+  else if encl_applies n (1 - p) (Qden p) then Some true else None.
+(* enclosure (L, U) of pr j of B(n, m), 0 <= j <= n *)
+Definition encl_pmf (n : Z) (m : Q) (j : Z) : Q * Q :=
+  let nm := (inject_Z n * m)%Q in let e := encl_eps n m in
+  if j =? 0 then (1 - nm, 1 - nm + e)%Q else if j =? 1 then (nm - e, nm)%Q else (0%Q, e).
+(* enclosure of sum_{i <= j} pr i of B(n, m), 0 <= j < n *)
+Definition encl_cdf (n : Z) (m : Q) (j : Z) : Q * Q :=
+  let nm := (inject_Z n * m)%Q in let e := encl_eps n m in
+  if j =? 0 then (1 - nm, 1 - nm + e)%Q else (1 - e, 1)%Q.
+Definition encl_flip (lu : Q * Q) : Q * Q := (1 - snd lu, 1 - fst lu)%Q.
+Definition encl_close (lu : Q * Q) (x : xreal) : bool :=
+  match x with XFin q => Qle_bool (snd lu - tol_abs) q && Qle_bool q (fst lu + tol_abs) | _ => false end.
+(* the enclosures for floor k = ki of BinomialDist{n, P}: flip = false, m = P;  flip = true, m = 1 - P *)
+Definition epmf_encl (n : Z) (m : Q) (flip : bool) (ki : Z) : Q * Q := encl_pmf n m (if flip then n - ki else ki).
+Definition ecdf_encl (n : Z) (m : Q) (flip : bool) (ki : Z) : Q * Q :=
+  if flip then encl_flip (encl_cdf n m (n - ki - 1)) else encl_cdf n m ki.
+Definition epmf_ok_b (n : Z) (m : Q) (flip : bool) (ki : Z) (pm : xreal) : bool :=
+  if (ki <? 0) || (n <? ki) then is_zero pm else encl_close (epmf_encl n m flip ki) pm.
+Definition ecdf_ok_b (n : Z) (m : Q) (flip : bool) (ki : Z) (cd : xreal) : bool :=
+  if ki <? 0 then is_zero cd else if n <=? ki then is_one cd else encl_close (ecdf_encl n m flip ki) cd.
+Definition lu_diag (lu : Q * Q) : list Z := qdiag (fst lu) ++ qdiag (snd lu).
+(* tag bit 2048: enclosure mode (the other bits as in item_tag; the table there is only asked for its bounds) *)
+Fixpoint run_items_e (n : Z) (p m : Q) (flip : bool) (items : list (Z * Z * Z)) (idx tag : Z)
+  : Z * option (Z * Z * list Z) :=
+  match items with
+  | [] => (tag, None)
+  | (kb, pb, cb) :: rest =>
+      match decode_bits kb with
+      | XFin k =>
+          let ki := Qfloor k in
+          let tag' := Z.lor tag (Z.lor 2048 (item_tag (DBin n p) (mkT 1 0 0 n [] []) k ki)) in
+          if negb (epmf_ok_b n m flip ki (decode_bits pb)) then
+            (tag', Some (idx, 0, ki :: (if (ki <? 0) || (n <? ki) then [0; 1; 0; 1] else lu_diag (epmf_encl n m flip ki))))
+          else if negb (ecdf_ok_b n m flip ki (decode_bits cb)) then
+            (tag', Some (idx, 1, ki :: (if ki <? 0 then [0; 1; 0; 1] else if n <=? ki then [1; 1; 1; 1] else lu_diag (ecdf_encl n m flip ki))))
+          else run_items_e n p m flip rest (idx + 1) tag'
+      | _ => (tag, Some (idx, 3, []))
+      end
+  end.
+Definition finish_e (n : Z) (p : Q) (flip : bool) (hdr : list bool) (items : list (Z * Z * Z)) : list Z :=
+  match first_false hdr with
+  | Some i => verdict V_MISMATCH 1 i []
+  | None =>
+      match run_items_e n p (if flip then 1 - p else p)%Q flip items 0 0 with
+      | (tag, None) => verdict V_OK tag (-1) []
+      | (tag, Some (idx, w, dg)) =>
+          if w =? 3 then verdict V_MALFORMED tag idx []
+          else verdict V_MISMATCH tag (10 + 2 * idx + w) dg
+      end
+  end.
+
 (* ---------- the decoded case ---------- *)
 Record bin_case := mkBin { b_n : Z; b_p : Q;
                            b_mean : xreal; b_var : xreal; b_mu : xreal; b_sigma : xreal;
@@ -243,7 +311,10 @@ Definition check_case (cs : c06case) : list Z :=
   | CPanic _ st => verdict V_MISMATCH 1 (-2) [st]
   | CBin c =>
       if negb (bin_valid c) then verdict V_MALFORMED 0 (-1) [] else
-      finish (DBin (b_n c) (b_p c)) (binom_table (b_n c) (b_p c)) (bin_hdr c) (b_items c)
+      match encl_side (b_n c) (b_p c) with
+      | Some flip => finish_e (b_n c) (b_p c) flip (bin_hdr c) (b_items c)
+      | None => finish (DBin (b_n c) (b_p c)) (binom_table (b_n c) (b_p c)) (bin_hdr c) (b_items c)
+      end
   | CHg c =>
       if negb (hg_valid_b c) then verdict V_MALFORMED 0 (-1) [] else
       finish (DHg (h_N c) (h_K c) (h_n c)) (hg_table (h_N c) (h_K c) (h_n c)) (hg_hdr c) (h_items c)
